@@ -162,6 +162,38 @@ class NSVal:
         self.attrs = {}
 
 
+class ClassVal:
+    """a plain class: methods and class attributes"""
+    __slots__ = ("name", "attrs", "bases")
+
+    def __init__(self, name, attrs, bases):
+        self.name, self.attrs, self.bases = name, attrs, bases
+
+    def find(self, name):
+        if name in self.attrs:
+            return self.attrs[name]
+        for b in self.bases:
+            r = b.find(name) if isinstance(b, ClassVal) else None
+            if r is not None:
+                return r
+        return None
+
+
+class InstVal:
+    __slots__ = ("cls", "attrs")
+
+    def __init__(self, cls):
+        self.cls, self.attrs = cls, {}
+
+
+class Wrapped:
+    """staticmethod / classmethod / property around a function"""
+    __slots__ = ("kind", "func")
+
+    def __init__(self, kind, func):
+        self.kind, self.func = kind, func
+
+
 class IndexExpr:
     """np.s_ / np.index_exp: subscripting it gives the index itself"""
     __slots__ = ("kind",)
@@ -984,6 +1016,8 @@ class ModuleScope:
         for st in mod.tree.body:
             if isinstance(st, ast.FunctionDef):
                 self.nodes.setdefault(st.name, []).append(("def", st))
+            elif isinstance(st, ast.ClassDef):
+                self.nodes.setdefault(st.name, []).append(("class", st))
             elif isinstance(st, ast.Assign) and len(st.targets) == 1 and isinstance(st.targets[0], ast.Name):
                 self.nodes.setdefault(st.targets[0].id, []).append(("assign", st.value))
                 if st.targets[0].id == "__all__" and isinstance(st.value, (ast.List, ast.Tuple)):
@@ -1051,6 +1085,8 @@ class Interp:
                     val = Builtin(name)
                 else:
                     val = self.make_func(what, sc.frame)
+            elif kind == "class":
+                val = self.make_class(what, sc.frame)
             elif kind == "assign":
                 sc.cache[name] = None
                 val = self.eval(what, sc.frame)
@@ -1105,7 +1141,7 @@ class Interp:
             return len(v.items) > 0
         if isinstance(v, DVal):
             return len(v.keys) > 0
-        if isinstance(v, (FuncVal, Builtin, ModuleVal, Table, Bound, IndexVal, CountVal, PartialVal, NSVal)):
+        if isinstance(v, (FuncVal, Builtin, ModuleVal, Table, Bound, IndexVal, CountVal, PartialVal, NSVal, ClassVal, InstVal)):
             return True
         if isinstance(v, Arr):
             if v.size != 1:
@@ -1302,6 +1338,15 @@ class Interp:
             if name not in v.attrs:
                 raise PyError("AttributeError", name)
             return v.attrs[name]
+        if isinstance(v, InstVal):
+            return self.inst_attr(v, name, node)
+        if isinstance(v, ClassVal):
+            r = v.find(name)
+            if r is None:
+                raise PyError("AttributeError", f"type object '{v.name}' has no attribute '{name}'")
+            if isinstance(r, Wrapped):
+                return r.func if r.kind == "staticmethod" else PartialVal(r.func, [v], {})
+            return r
         return Bound(v, name)
 
     def e_UnaryOp(self, node, fr):
@@ -1598,7 +1643,12 @@ class Interp:
         fn = node.func
         if isinstance(fn, ast.Attribute):
             obj = self.eval(fn.value, fr)
-            f = self.member(obj.name + "." + fn.attr) if isinstance(obj, ModuleVal) else Bound(obj, fn.attr)
+            if isinstance(obj, ModuleVal):
+                f = self.member(obj.name + "." + fn.attr)
+            elif isinstance(obj, (InstVal, ClassVal, NSVal)):
+                f = self.attr(obj, fn.attr, fn)
+            else:
+                f = Bound(obj, fn.attr)
         else:
             f = self.eval(fn, fr)
         args = []
@@ -1638,6 +1688,8 @@ class Interp:
             return self.opaque_call(f.name, args, kwargs, node)
         if isinstance(f, Bound):
             return self.method(f.obj, f.name, args, kwargs, node)
+        if isinstance(f, ClassVal):
+            return self.instantiate(f, args, kwargs, node)
         if isinstance(f, PartialVal):
             kw = dict(f.kwargs)
             kw.update(kwargs)
@@ -1769,7 +1821,23 @@ class Interp:
     def s_Pass(self, st, fr):
         pass
 
-    s_Import = s_ImportFrom = s_Assert = s_Pass
+    s_Assert = s_Pass
+
+    def s_Import(self, st, fr):
+        for a in st.names:
+            if a.asname:
+                fr.env[a.asname] = ModuleVal(canon_module(a.name))
+            else:
+                fr.env[a.name.split(".")[0]] = ModuleVal(canon_module(a.name.split(".")[0]))
+
+    def s_ImportFrom(self, st, fr):
+        if not st.module or st.level:
+            raise Unsupported("relative import inside a function")
+        for a in st.names:
+            if a.name == "*":
+                raise Unsupported("star import inside a function")
+            full = canon_module(st.module + "." + a.name)
+            fr.env[a.asname or a.name] = ModuleVal(full) if full in KNOWN_MODULES else self.member(full)
 
     def s_Global(self, st, fr):
         raise Unsupported("global statement")
@@ -1824,7 +1892,7 @@ class Interp:
             obj = self.eval(t.value, fr)
             if is_rat(obj):
                 self.sh.cells.append((obj, mkstr("." + t.attr), v, node))
-            elif isinstance(obj, NSVal):
+            elif isinstance(obj, (NSVal, InstVal)):
                 obj.attrs[t.attr] = v
             else:
                 raise Unsupported("attribute store")
@@ -1849,6 +1917,16 @@ class Interp:
             cur = self.getitem(base, key, t)
             v = self.eval(st.value, fr)
             self.setitem(base, key, self.binop(st.op, cur, v, st), st)
+        elif isinstance(t, ast.Attribute):
+            obj = self.eval(t.value, fr)
+            cur = self.attr(obj, t.attr, t)
+            v = self.eval(st.value, fr)
+            if isinstance(cur, Arr):
+                cur.set(G.slice_value(None, None, None) if cur.ndim else (), self.binop(st.op, cur, v, st))
+            elif isinstance(obj, (NSVal, InstVal)):
+                obj.attrs[t.attr] = self.binop(st.op, cur, v, st)
+            else:
+                raise Unsupported("augmented assignment to an attribute")
         else:
             raise Unsupported("augmented assignment target")
 
@@ -1984,7 +2062,54 @@ class Interp:
         fr.env[st.name] = self.make_func(st, fr)
 
     def s_ClassDef(self, st, fr):
-        raise Unsupported("class definition inside a function")
+        fr.env[st.name] = self.make_class(st, fr)
+
+    def make_class(self, st, fr):
+        if st.keywords:
+            raise Unsupported("class with a metaclass / keywords")
+        bases = []
+        for b in st.bases:
+            v = self.eval(b, fr)
+            if isinstance(v, ClassVal):
+                bases.append(v)
+            elif not (isinstance(v, Builtin) and v.name == "object"):
+                raise Unsupported(f"base class `{_src(b)}`")
+        if any(not (isinstance(d, ast.Name) and d.id in ("staticmethod", "classmethod", "property")) for x in st.body if isinstance(x, ast.FunctionDef)
+               for d in x.decorator_list) or st.decorator_list:
+            raise Unsupported("decorated class / method")
+        body = Frame(fr)
+        for x in st.body:
+            if isinstance(x, ast.FunctionDef):
+                f = self.make_func(x, fr)
+                body.env[x.name] = Wrapped(x.decorator_list[0].id, f) if x.decorator_list else f
+            else:
+                self.run([x], body)
+        return ClassVal(st.name, dict(body.env), bases)
+
+    def instantiate(self, cls, args, kwargs, node):
+        inst = InstVal(cls)
+        init = cls.find("__init__")
+        if init is not None:
+            self.call(init, [inst] + list(args), kwargs, node)
+        elif args or kwargs:
+            raise PyError("TypeError", f"{cls.name}() takes no arguments")
+        return inst
+
+    def inst_attr(self, obj, name, node):
+        if name in obj.attrs:
+            return obj.attrs[name]
+        v = obj.cls.find(name)
+        if v is None:
+            raise PyError("AttributeError", f"'{obj.cls.name}' object has no attribute '{name}'")
+        if isinstance(v, FuncVal):
+            return PartialVal(v, [obj], {})
+        if isinstance(v, Wrapped):
+            if v.kind == "staticmethod":
+                return v.func
+            if v.kind == "classmethod":
+                return PartialVal(v.func, [obj.cls], {})
+            return self.call(v.func, [obj], {}, node)
+        return v
 
 
 _GEN = {}
@@ -2742,6 +2867,46 @@ def L_divmod(ip, args, kwargs, node):
     return (lift2(s_floordiv, args[0], args[1]), lift2(s_mod, args[0], args[1]))
 
 
+def L_einsum(ip, args, kwargs, node):
+    spec = str_of(args[0]) if args and is_rat(args[0]) else None
+    if spec is None or "." in spec:
+        return NotImplemented
+    spec = spec.replace(" ", "")
+    ins, _, out = spec.partition("->")
+    terms = ins.split(",")
+    ops = [as_arr(a) for a in args[1:]]
+    if len(terms) != len(ops):
+        raise PyError("ValueError", "einsum: number of operands")
+    dims = {}
+    for t, a in zip(terms, ops):
+        if len(t) != a.ndim:
+            raise PyError("ValueError", f"einsum: operand has {a.ndim} dimensions, subscripts {t!r}")
+        for ch, n in zip(t, a.shape):
+            if dims.setdefault(ch, n) != n:
+                raise PyError("ValueError", "einsum: sizes of a repeated subscript differ")
+    if "->" not in spec:
+        out = "".join(sorted(ch for ch in dims if ins.replace(",", "").count(ch) == 1))
+    summed = [ch for ch in dims if ch not in out]
+    nests = [a.nested() for a in ops]
+
+    def elem(nest, t, env):
+        for ch in t:
+            nest = nest[env[ch]]
+        return nest
+    vals = []
+    for oix in itertools.product(*[range(dims[ch]) for ch in out]):
+        env = dict(zip(out, oix))
+        tot = F.const(0)
+        for six in itertools.product(*[range(dims[ch]) for ch in summed]):
+            env.update(zip(summed, six))
+            term = F.const(1)
+            for nest, t in zip(nests, terms):
+                term = _safe2(s_mul, term, elem(nest, t, env))
+            tot = _safe2(s_add, tot, term)
+        vals.append(tot)
+    return unbox(Arr.new(vals, tuple(dims[ch] for ch in out)))
+
+
 def L_noop(ip, args, kwargs, node):
     return NONE
 
@@ -2797,7 +2962,7 @@ LIB = {
     "itertools.count": L_count, "itertools.product": L_product, "itertools.chain": L_chain,
     "copy.copy": L_copy, "copy.deepcopy": L_copy, "np.ix_": L_ix, "np.diag": L_diag, "np.array_equal": L_array_equal,
     "print": L_noop, "warnings.warn": L_noop, "isinstance": L_isinstance,
-    "np.tile": L_tile, "np.repeat": L_repeat, "np.kron": L_kron, "np.block": L_block, "np.outer": L_outer, "np.swapaxes": L_swapaxes,
+    "np.einsum": L_einsum, "np.tile": L_tile, "np.repeat": L_repeat, "np.kron": L_kron, "np.block": L_block, "np.outer": L_outer, "np.swapaxes": L_swapaxes,
     "np.expand_dims": L_expand_dims, "np.fill_diagonal": L_fill_diagonal, "np.trace": L_trace, "np.prod": L_prod, "np.append": L_append,
     "np.take": L_take, "np.equal": _cmp_fn("Eq"), "np.not_equal": _cmp_fn("NotEq"), "np.greater": _cmp_fn("Gt"), "np.less": _cmp_fn("Lt"),
     "np.greater_equal": _cmp_fn("GtE"), "np.less_equal": _cmp_fn("LtE"), "np.divide": _binary(s_div), "np.true_divide": _binary(s_div),
